@@ -435,6 +435,30 @@ def r7_full_waits(r, facts):
     r.floor(1)
 
 
+def r10_slot_reset(r, facts):
+    """a reused slot still holds the previous request: `Submission::reset` runs on the slot, on every path, before the caller's
+    fill closure sees it (a field the new operation does not write — flags, personality, buf_group, file_index — would
+    otherwise be inherited from whatever was queued there `len` submissions ago)."""
+    f = facts.fn(ADD)
+    fills = find_fill_call(f)
+    if not r.require(len(fills) == 1, 'Submissions::add/fill', 'expected one fill_submission call, found %d' % len(fills), f.where()):
+        return
+    fl, ft = fills[0]
+    resets = [loc for loc, t in f.calls() if (t.get('callee') or '').endswith('Submission::reset') and not f.blocks[loc[0]]['cleanup']]
+    r.inst('slot reset before fill: %d reset call(s)' % len(resets), f.where(fl))
+    hit = f.forward_paths_hit([Loc(0, 0)], [fl], blockers=resets)
+    r.require(bool(resets) and hit is None, 'Submissions::add/slot-reset', 'the fill closure can be reached without Submission::reset on the slot: fields the new operation does not write keep the values of the request that used the slot before', f.where(fl))
+    g = facts.fn_opt('io_uring::sq::Submission::reset')
+    if r.require(g is not None, 'Submission::reset', 'Submission::reset not found'):
+        # reset writes the whole entry: a whole-value store through self (zeroed / Default), not field by field
+        whole = [loc for loc, s_ in g.assigns() if s_['lhs']['l'] == 1 and [p_['k'] for p_ in s_['lhs']['p']] in (['deref'], ['deref', 'field'])]
+        zero = [loc for loc, t in g.calls() if (t.get('callee') or '').endswith(('mem::zeroed', 'write_bytes', 'ptr::write', 'Default::default')) and not g.blocks[loc[0]]['cleanup']]
+        r.inst('Submission::reset overwrites the whole entry (%d whole store(s), %d zeroing call(s))' % (len(whole), len(zero)), g.where())
+        r.require(bool(whole) or bool(zero), 'Submission::reset/whole', 'Submission::reset does not overwrite the whole entry', g.where())
+    r.floor(2)
+
+
+
 def check(ctx):
     ctx.run('C04.R1', 'slot deref, fill, fence and tail store inside the submissions_lock guard', r1_lock_region)
     ctx.run('C04.R2', 'slot write dominated by a has-room edge implying distance(tail,head) < len, loads inside the lock, head first', r2_fullness_guard)
@@ -445,3 +469,8 @@ def check(ctx):
     ctx.run('C04.R7', 'QueueFull => wait_for_submission + Pending, never a write', r7_full_waits)
     from . import c18
     ctx.run('C04.R8', 'the lengths that give the index masks are the sizes the kernel granted: submissions_len = params.sq_entries (=C18.R4)', lambda r, facts: c18.ring_lengths(r, facts, modes=False, cq=False, floor=1))
+    from . import c11
+    ctx.run('C04.R9', 'in kernel-thread mode a sleeping poll thread is woken for new submissions; the timeout reaches the kernel (=C11.R6)', c11.r6_enter_contract)
+    ctx.run('C04.R10', 'a reused slot is reset (whole entry) on every path before the fill closure runs', r10_slot_reset)
+    from . import c18
+    ctx.run('C04.R11', 'the modes Shared works in are the ones the kernel echoed, the right way round (=C18.R4): with kernel_thread inverted nothing is handed to io_uring_enter', lambda r, facts: c18.ring_lengths(r, facts, modes=True, floor=2, sq=False, cq=False))
